@@ -350,12 +350,14 @@ def run_visit_guard(ctx: Ctx) -> RuleResult:
                 continue
             n_gate += 1
             node_var = gate[0][1]['n']
-            rem = [st for st in m.node.body if isinstance(st, ast.Expr) and (
+            from ..model import core_stmts
+            mbody = core_stmts(m.node.body)
+            rem = [st for st in mbody if isinstance(st, ast.Expr) and (
                 find_pat([st.value], '$me.%s.remove(id($n))' % attr, {'n': node_var})
                 or find_pat([st.value], '$me.%s.discard(id($n))' % attr, {'n': node_var}))]
             ok = len(rem) == 1
             if ok:
-                before = m.node.body[:m.node.body.index(rem[0])]
+                before = mbody[:mbody.index(rem[0])]
                 # only guards (if ...: return) and plain assignments may precede the removal
                 ok = all(isinstance(st, (ast.If, ast.Assign)) or (isinstance(st, ast.Expr) and isinstance(st.value, ast.Constant)) for st in before) \
                     and all(all(isinstance(b, ast.Return) for b in st.body) and not st.orelse for st in before if isinstance(st, ast.If))
